@@ -243,3 +243,400 @@ Proof. induction ops as [|o r IH]; intros s I; [exact I|]. cbn. apply IH. apply 
 
 Lemma si_final ops : SI (final ops).
 Proof. apply si_fold. exact si_init. Qed.
+
+(* ------------------------------------------------------------------ tables = latest add per id *)
+Lemma delete_all_tables s : clients (fst (delete_all s)) = [] /\ rules (fst (delete_all s)) = [].
+Proof.
+  unfold delete_all. destruct (stop_all (map snd (clients s)) s) as [s1 e]. split; reflexivity.
+Qed.
+
+Lemma next_rules s o id : rlk id (rules (next s o)) = latest_step id (rlk id (rules s)) o.
+Proof.
+  unfold next. destruct o as [r|k| |str]; cbn [step latest_step].
+  - destruct (N.eqb (rid r) reserved); [reflexivity|]. rewrite stop_id_eq.
+    destruct (clk (rid r) (clients s)); cbn [fst snd rules]; rewrite rlk_ins, rlk_rm; destruct (N.eqb id (rid r)); reflexivity.
+  - destruct (N.eqb k reserved).
+    + pose proof (delete_all_tables s) as [_ H]. destruct (delete_all s) as [s1 e]. cbn [fst] in *. rewrite H. reflexivity.
+    + rewrite stop_id_eq. destruct (clk k (clients s)); cbn [fst snd set_maps rules]; rewrite rlk_rm; reflexivity.
+  - pose proof (delete_all_tables s) as [_ H]. destruct (delete_all s) as [s1 e]. cbn [fst] in *. rewrite H. reflexivity.
+  - reflexivity.
+Qed.
+
+Lemma next_clients s o id :
+  option_map crule (clk id (clients (next s o))) = latest_step id (option_map crule (clk id (clients s))) o.
+Proof.
+  unfold next. destruct o as [r|k| |str]; cbn [step latest_step].
+  - destruct (N.eqb (rid r) reserved); [reflexivity|]. rewrite stop_id_eq.
+    destruct (clk (rid r) (clients s)); cbn [fst snd clients]; rewrite clk_ins, ?clk_rm;
+      destruct (N.eqb id (rid r)); reflexivity.
+  - destruct (N.eqb k reserved).
+    + pose proof (delete_all_tables s) as [H _]. destruct (delete_all s) as [s1 e]. cbn [fst] in *. rewrite H. reflexivity.
+    + rewrite stop_id_eq. destruct (clk k (clients s)) eqn:E; cbn [fst snd set_maps clients].
+      * rewrite clk_rm. destruct (N.eqb id k); reflexivity.
+      * destruct (N.eqb_spec id k) as [->|Hn]; [rewrite E; reflexivity|reflexivity].
+  - pose proof (delete_all_tables s) as [H _]. destruct (delete_all s) as [s1 e]. cbn [fst] in *. rewrite H. reflexivity.
+  - reflexivity.
+Qed.
+
+Lemma fold_rules id ops : forall s,
+  rlk id (rules (fold_left next ops s)) = fold_left (latest_step id) ops (rlk id (rules s)).
+Proof. induction ops as [|o r IH]; intros s; cbn; [reflexivity|]. rewrite IH, next_rules. reflexivity. Qed.
+
+Lemma fold_clients id ops : forall s,
+  option_map crule (clk id (clients (fold_left next ops s))) =
+  fold_left (latest_step id) ops (option_map crule (clk id (clients s))).
+Proof. induction ops as [|o r IH]; intros s; cbn; [reflexivity|]. rewrite IH, next_clients. reflexivity. Qed.
+
+(* the rule listing is exactly: for every id, the rule most recently added and not since deleted *)
+Theorem listing_exact ops :
+  NoDup (keys (rules (final ops))) /\ forall id, rlk id (rules (final ops)) = latest ops id.
+Proof. split; [apply (si_ndr _ (si_final ops))|]. intros id. unfold final, latest. rewrite fold_rules. reflexivity. Qed.
+
+(* the live client of an id carries the destination and stream of the most recent add for that id;
+   no client if that rule has been deleted *)
+Theorem live_is_latest ops id :
+  option_map crule (clk id (clients (final ops))) = latest ops id.
+Proof. unfold final, latest. rewrite fold_clients. reflexivity. Qed.
+
+Lemma latest_reserved ops : forall a, a = None -> fold_left (latest_step reserved) ops a = None.
+Proof.
+  induction ops as [|o r IH]; intros a ->; cbn; [reflexivity|]. apply IH.
+  destruct o as [ru|k| |str]; cbn [latest_step]; try reflexivity.
+  - destruct (N.eqb_spec (rid ru) reserved) as [E|Hn]; [reflexivity|].
+    destruct (N.eqb_spec reserved (rid ru)) as [E|_]; [congruence|reflexivity].
+  - destruct (N.eqb k reserved); [reflexivity|]. destruct (N.eqb reserved k); reflexivity.
+Qed.
+
+Theorem reserved_id :
+  (forall s r, rid r = reserved -> step s (Add r) = (s, [], [])) /\
+  (forall ops, rlk reserved (rules (final ops)) = None /\ clk reserved (clients (final ops)) = None).
+Proof.
+  split.
+  - intros s r H. cbn [step]. rewrite H. reflexivity.
+  - intros ops. split.
+    + destruct (listing_exact ops) as [_ H]. rewrite H. apply latest_reserved. reflexivity.
+    + apply (si_res _ (si_final ops)).
+Qed.
+
+(* ------------------------------------------------------------------ the order of events *)
+(* what must hold of an event given everything that happened before it *)
+Definition ok_ext (past : list ev) (e : ev) : Prop :=
+  match e with
+  | EInstall id g =>
+      (forall g', In (EInstall id g') past -> In (ECancel g') past /\ In (EUnreg g') past) /\
+      (forall id', ~ In (EInstall id' g) past)
+  | EEnq g => ~ In (ECancel g) past /\ ~ In (EUnreg g) past
+  | _ => True
+  end.
+
+(* rt is a trace most-recent-first: every event was acceptable when it happened *)
+Fixpoint okr (rt : list ev) : Prop :=
+  match rt with
+  | [] => True
+  | e :: past => ok_ext past e /\ okr past
+  end.
+
+Lemma okr_suffix a b : okr (a ++ b) -> okr b.
+Proof. induction a as [|e a IH]; cbn; [auto|]. intros [_ H]. apply IH; exact H. Qed.
+
+Definition quiet (e : ev) : Prop := match e with EUnreg _ | ECancel _ | EReg _ => True | _ => False end.
+
+Lemma okr_quiet l rt : (forall e, In e l -> quiet e) -> okr rt -> okr (l ++ rt).
+Proof.
+  induction l as [|e l IH]; cbn [app]; intros Hq Ho; [exact Ho|]. cbn [okr]. split.
+  - specialize (Hq e (or_introl eq_refl)). destruct e; cbn in *; try exact I; contradiction.
+  - apply IH; [|exact Ho]. intros x Hx. apply Hq. right; exact Hx.
+Qed.
+
+(* what the past trace and the state have to do with each other *)
+Record TI (rt : list ev) (s : st) : Prop := mkTI {
+  t_lt : forall id g, In (EInstall id g) rt -> (g < nextgen s)%N;
+  t_inst : forall id g, In (EInstall id g) rt ->
+      (exists c, clk id (clients s) = Some c /\ cgen c = g) \/ (In (ECancel g) rt /\ In (EUnreg g) rt);
+  t_mem : forall c, In c (members s) -> ~ In (ECancel (cgen c)) rt /\ ~ In (EUnreg (cgen c)) rt;
+  t_old : forall g, In (ECancel g) rt \/ In (EUnreg g) rt -> (g < nextgen s)%N
+}.
+
+Lemma ti_init : TI [] init.
+Proof. constructor; cbn; try (intros; contradiction). intros g [[]|[]]. Qed.
+
+Lemma in_stop_events e cs : In e (stop_events cs) <-> exists c, In c cs /\ (e = EUnreg (cgen c) \/ e = ECancel (cgen c)).
+Proof.
+  unfold stop_events. rewrite in_flat_map. split.
+  - intros [c [Hc He]]. exists c. split; [exact Hc|]. cbn in He. destruct He as [<-|[<-|[]]]; auto.
+  - intros [c [Hc [ -> | -> ]]]; exists c; (split; [exact Hc|cbn; auto]).
+Qed.
+
+Lemma in_enq_only e (l : list client) : In e (rev (map (fun c => EEnq (cgen c)) l)) -> exists g, e = EEnq g.
+Proof. rewrite <- in_rev, in_map_iff. intros [c [<- _]]. eexists; reflexivity. Qed.
+
+Lemma okr_enq (l : list client) : forall rt,
+  (forall c, In c l -> ~ In (ECancel (cgen c)) rt /\ ~ In (EUnreg (cgen c)) rt) ->
+  okr rt -> okr (rev (map (fun c => EEnq (cgen c)) l) ++ rt).
+Proof.
+  induction l as [|x l IH]; intros rt H Ho; [exact Ho|].
+  cbn [map rev]. rewrite <- app_assoc. cbn [app]. apply IH.
+  - intros c Hc. destruct (H c (or_intror Hc)) as [H1 H2]. cbn [In].
+    split; intros [E|E]; try discriminate; auto.
+  - cbn [okr ok_ext]. split; [apply H; left; reflexivity|exact Ho].
+Qed.
+
+Lemma delete_all_trace s rt : SI s -> TI rt s -> okr rt ->
+  okr (rev (snd (delete_all s)) ++ rt) /\ TI (rev (snd (delete_all s)) ++ rt) (fst (delete_all s)).
+Proof.
+  intros HS T Ho. unfold delete_all.
+  pose proof (stop_all_spec (map snd (clients s)) s) as H.
+  destruct (stop_all (map snd (clients s)) s) as [s1 e1]. cbn [fst snd] in *.
+  destruct H as (He & Hc & Hr & Hn & Hm & Hd). subst e1.
+  assert (Hcs : forall id c, clk id (clients s) = Some c -> In c (map snd (clients s))).
+  { intros id c H. apply in_map_iff. exists (id, c). split; [reflexivity|apply lookup_in; exact H]. }
+  assert (Hev : forall e, In e (rev (stop_events (map snd (clients s)))) ->
+            exists id c, clk id (clients s) = Some c /\ (e = EUnreg (cgen c) \/ e = ECancel (cgen c))).
+  { intros e H. rewrite <- in_rev in H. apply in_stop_events in H. destruct H as (c & Hin & He).
+    apply in_map_iff in Hin. destruct Hin as [[id c'] [E Hin]]. cbn in E; subst c'.
+    exists id, c. split; [apply (in_lookup_nodup _ _ _ (si_nd s HS)); exact Hin|exact He]. }
+  split.
+  - apply okr_quiet; [|exact Ho]. intros e H. apply Hev in H. destruct H as (id & c & _ & [->| ->]); exact I.
+  - constructor; cbn [set_maps clients rules members ended nextgen].
+    + intros id g H. rewrite Hn. apply in_app_iff in H. destruct H as [H|H]; [|apply (t_lt rt s T) in H; exact H].
+      apply Hev in H. destruct H as (k & c & _ & [E|E]); discriminate.
+    + intros id g H. right. apply in_app_iff in H. destruct H as [H|H].
+      { apply Hev in H. destruct H as (k & c & _ & [E|E]); discriminate. }
+      destruct (t_inst rt s T id g H) as [(c & Hcl & Hg)|[H1 H2]].
+      * subst g. split; apply in_app_iff; left; rewrite <- in_rev; apply in_stop_events; exists c; (split; [eapply Hcs; exact Hcl|auto]).
+      * split; apply in_app_iff; right; assumption.
+    + intros c H. exfalso. apply Hm in H. destruct H as [H1 H2]. apply (si_mem s HS) in H1.
+      destruct H1 as [id Hid]. apply H2. apply in_map. eapply Hcs; exact Hid.
+    + intros g H. rewrite Hn. destruct H as [H|H]; apply in_app_iff in H; destruct H as [H|H].
+      * apply Hev in H. destruct H as (k & c & Hk & [E|E]); inversion E; subst. apply (si_gen s HS k c Hk).
+      * apply (t_old rt s T). left; exact H.
+      * apply Hev in H. destruct H as (k & c & Hk & [E|E]); inversion E; subst. apply (si_gen s HS k c Hk).
+      * apply (t_old rt s T). right; exact H.
+Qed.
+
+Lemma step_trace s o rt : SI s -> TI rt s -> okr rt ->
+  okr (rev (events s o) ++ rt) /\ TI (rev (events s o) ++ rt) (next s o).
+Proof.
+  intros HS T Ho. destruct o as [r|k| |str].
+  - (* Add *)
+    unfold events, next. cbn [step]. destruct (N.eqb (rid r) reserved) eqn:Hres; [cbn; auto|].
+    rewrite stop_id_eq. remember (rid r) as id eqn:Hid.
+    destruct (clk id (clients s)) as [c0|] eqn:E0; cbn [fst snd app rev cgen clients rules members ended nextgen].
+    + set (g0 := cgen c0). set (g := nextgen s).
+      assert (Hpast : okr (ECancel g0 :: EUnreg g0 :: rt)) by (cbn; auto).
+      split.
+      * cbn [okr ok_ext]. split; [exact I|]. split; [|exact Hpast]. split.
+        { intros g' Hin. cbn [In] in Hin. destruct Hin as [Hx|[Hx|Hin]]; try discriminate.
+          destruct (t_inst rt s T id g' Hin) as [(c & Hc & Hg)|[H1 H2]].
+          - assert (c = c0) by congruence. subst c. subst g'. cbn [In]. split; auto 10.
+          - cbn [In]. split; auto 10. }
+        { intros id' Hin. cbn [In] in Hin. destruct Hin as [Hx|[Hx|Hin]]; try discriminate.
+          apply (t_lt rt s T) in Hin. unfold g in Hin. lia. }
+      * constructor; cbn [clients rules members ended nextgen].
+        { intros k g'. cbn [In]. intros [Hx|[Hx|[Hx|[Hx|Hin]]]]; try discriminate.
+          - inversion Hx; subst. unfold g. lia.
+          - apply (t_lt rt s T) in Hin. lia. }
+        { intros k g'. cbn [In]. intros [Hx|[Hx|[Hx|[Hx|Hin]]]]; try discriminate.
+          - inversion Hx; subst k g'. left. eexists. rewrite clk_ins, N.eqb_refl. split; reflexivity.
+          - destruct (t_inst rt s T k g' Hin) as [(c & Hc & Hg)|[H1 H2]].
+            + destruct (N.eqb_spec k id) as [->|Hn].
+              * assert (c = c0) by congruence. subst c. right. subst g'. fold g0. split; auto 10.
+              * left. exists c. rewrite clk_ins, clk_rm. destruct (N.eqb_spec k id); [contradiction|]. auto.
+            + right. split; auto 10. }
+        { intros c. rewrite in_app_iff, in_drop_member. cbn [In]. intros [[Hm Hg]|[<-|[]]].
+          - destruct (t_mem rt s T c Hm) as [H1 H2]. fold g0 in Hg. split.
+            + intros [Hx|[Hx|[Hx|[Hx|Hin]]]]; try discriminate; [congruence|exact (H1 Hin)].
+            + intros [Hx|[Hx|[Hx|[Hx|Hin]]]]; try discriminate; [congruence|exact (H2 Hin)].
+          - cbn [cgen]. pose proof (si_gen s HS id c0 E0) as [Hlt _]. fold g0 in Hlt. split.
+            + intros [Hx|[Hx|[Hx|[Hx|Hin]]]]; try discriminate.
+              * inversion Hx. unfold g in *. lia.
+              * assert (g < nextgen s)%N by (apply (t_old rt s T); left; exact Hin). unfold g in *. lia.
+            + intros [Hx|[Hx|[Hx|[Hx|Hin]]]]; try discriminate.
+              * inversion Hx. unfold g in *. lia.
+              * assert (g < nextgen s)%N by (apply (t_old rt s T); right; exact Hin). unfold g in *. lia. }
+        { intros g'. pose proof (si_gen s HS id c0 E0) as [Hlt _]. fold g0 in Hlt. cbn [In].
+          intros [[Hx|[Hx|[Hx|[Hx|Hin]]]]|[Hx|[Hx|[Hx|[Hx|Hin]]]]]; try discriminate.
+          - inversion Hx; subst. lia.
+          - assert (g' < nextgen s)%N by (apply (t_old rt s T); left; exact Hin). lia.
+          - inversion Hx; subst. lia.
+          - assert (g' < nextgen s)%N by (apply (t_old rt s T); right; exact Hin). lia. }
+    + set (g := nextgen s). split.
+      * cbn [okr ok_ext]. split; [exact I|]. split; [|exact Ho]. split.
+        { intros g' Hin. destruct (t_inst rt s T id g' Hin) as [(c & Hc & Hg)|[H1 H2]]; [congruence|auto]. }
+        { intros id' Hin. apply (t_lt rt s T) in Hin. unfold g in Hin. lia. }
+      * constructor; cbn [clients rules members ended nextgen].
+        { intros k g'. cbn [In]. intros [Hx|[Hx|Hin]]; try discriminate.
+          - inversion Hx; subst. unfold g. lia.
+          - apply (t_lt rt s T) in Hin. lia. }
+        { intros k g'. cbn [In]. intros [Hx|[Hx|Hin]]; try discriminate.
+          - inversion Hx; subst k g'. left. eexists. rewrite clk_ins, N.eqb_refl. split; reflexivity.
+          - destruct (t_inst rt s T k g' Hin) as [(c & Hc & Hg)|[H1 H2]].
+            + left. exists c. rewrite clk_ins. destruct (N.eqb_spec k id) as [->|Hn]; [congruence|auto].
+            + right. split; auto 10. }
+        { intros c. rewrite in_app_iff. cbn [In]. intros [Hm|[<-|[]]].
+          - destruct (t_mem rt s T c Hm) as [H1 H2]. split.
+            + intros [Hx|[Hx|Hin]]; try discriminate. exact (H1 Hin).
+            + intros [Hx|[Hx|Hin]]; try discriminate. exact (H2 Hin).
+          - cbn [cgen]. split.
+            + intros [Hx|[Hx|Hin]]; try discriminate.
+              assert (g < nextgen s)%N by (apply (t_old rt s T); left; exact Hin). unfold g in *. lia.
+            + intros [Hx|[Hx|Hin]]; try discriminate.
+              assert (g < nextgen s)%N by (apply (t_old rt s T); right; exact Hin). unfold g in *. lia. }
+        { intros g'. cbn [In]. intros [[Hx|[Hx|Hin]]|[Hx|[Hx|Hin]]]; try discriminate.
+          - assert (g' < nextgen s)%N by (apply (t_old rt s T); left; exact Hin). lia.
+          - assert (g' < nextgen s)%N by (apply (t_old rt s T); right; exact Hin). lia. }
+  - (* Delete *)
+    unfold events, next. cbn [step]. destruct (N.eqb k reserved) eqn:Hres.
+    { pose proof (delete_all_trace s rt HS T Ho) as H. destruct (delete_all s) as [s1 e]. exact H. }
+    rewrite stop_id_eq. destruct (clk k (clients s)) as [c0|] eqn:E0;
+      cbn [fst snd app rev set_maps clients rules members ended nextgen].
+    + set (g0 := cgen c0). split; [cbn; auto|].
+      pose proof (si_gen s HS k c0 E0) as [Hlt _]. fold g0 in Hlt.
+      constructor; cbn [set_maps clients rules members ended nextgen].
+      * intros id g. cbn [In]. intros [Hx|[Hx|Hin]]; try discriminate. apply (t_lt rt s T) in Hin. exact Hin.
+      * intros id g. cbn [In]. intros [Hx|[Hx|Hin]]; try discriminate.
+        destruct (t_inst rt s T id g Hin) as [(c & Hc & Hg)|[H1 H2]].
+        { destruct (N.eqb_spec id k) as [->|Hn].
+          - assert (c = c0) by congruence. subst c. right. subst g. fold g0. split; auto 10.
+          - left. exists c. rewrite clk_rm. destruct (N.eqb_spec id k); [contradiction|]. auto. }
+        right. split; auto 10.
+      * intros c. rewrite in_drop_member. intros [Hm Hg]. fold g0 in Hg.
+        destruct (t_mem rt s T c Hm) as [H1 H2]. cbn [In]. split.
+        { intros [Hx|[Hx|Hin]]; try discriminate; [congruence|exact (H1 Hin)]. }
+        { intros [Hx|[Hx|Hin]]; try discriminate; [congruence|exact (H2 Hin)]. }
+      * intros g. cbn [In]. intros [[Hx|[Hx|Hin]]|[Hx|[Hx|Hin]]]; try discriminate.
+        { inversion Hx; subst. exact Hlt. }
+        { apply (t_old rt s T). left; exact Hin. }
+        { inversion Hx; subst. exact Hlt. }
+        { apply (t_old rt s T). right; exact Hin. }
+    + split; [exact Ho|]. destruct T as [a b c d]. constructor; assumption.
+  - (* DeleteAll *)
+    unfold events, next. cbn [step].
+    pose proof (delete_all_trace s rt HS T Ho) as H. destruct (delete_all s) as [s1 e]. exact H.
+  - (* Bcast *)
+    unfold events, next. cbn [step fst snd]. split.
+    + apply okr_enq; [|exact Ho]. intros c Hc. apply filter_In in Hc. apply (t_mem rt s T). apply Hc.
+    + constructor.
+      * intros id g H. apply in_app_iff in H. destruct H as [H|H]; [|apply (t_lt rt s T) in H; exact H].
+        apply in_enq_only in H. destruct H as [g' E]; discriminate.
+      * intros id g H. apply in_app_iff in H. destruct H as [H|H].
+        { apply in_enq_only in H. destruct H as [g' E]; discriminate. }
+        destruct (t_inst rt s T id g H) as [Hl|[H1 H2]]; [left; exact Hl|].
+        right. split; apply in_app_iff; right; assumption.
+      * intros c Hc. destruct (t_mem rt s T c Hc) as [H1 H2].
+        split; intros H; apply in_app_iff in H; destruct H as [H|H]; auto;
+          apply in_enq_only in H; destruct H as [g' E]; discriminate.
+      * intros g [H|H]; apply in_app_iff in H; destruct H as [H|H];
+          try (apply in_enq_only in H; destruct H as [g' E]; discriminate).
+        { apply (t_old rt s T). left; exact H. }
+        { apply (t_old rt s T). right; exact H. }
+Qed.
+
+Lemma trace_okr ops : forall s rt, SI s -> TI rt s -> okr rt -> okr (rev (trace_from s ops) ++ rt).
+Proof.
+  induction ops as [|o r IH]; intros s rt HS T Ho; cbn [trace_from rev app]; [exact Ho|].
+  rewrite rev_app_distr, <- app_assoc.
+  destruct (step_trace s o rt HS T Ho) as [Ho' T'].
+  apply IH; [apply si_next; exact HS|exact T'|exact Ho'].
+Qed.
+
+Theorem trace_ok ops : okr (rev (trace ops)).
+Proof.
+  pose proof (trace_okr ops init [] si_init ti_init I) as H. rewrite app_nil_r in H. exact H.
+Qed.
+
+Lemma okr_split tr p e q : okr (rev tr) -> tr = p ++ e :: q -> ok_ext (rev p) e.
+Proof.
+  intros H ->. rewrite rev_app_distr in H. cbn [rev] in H. rewrite <- app_assoc in H.
+  apply okr_suffix in H. cbn [app okr] in H. apply H.
+Qed.
+
+Lemma okr_prefix p q : okr (rev (p ++ q)) -> okr (rev p).
+Proof. rewrite rev_app_distr. apply okr_suffix. Qed.
+
+(* the step that installs a new client for an id has, before that, cancelled and unregistered every
+   client installed for that id earlier *)
+Theorem old_cancelled_before_new ops p id g q :
+  trace ops = p ++ EInstall id g :: q ->
+  forall g', In (EInstall id g') p -> In (ECancel g') p /\ In (EUnreg g') p.
+Proof.
+  intros E g' Hin. pose proof (okr_split _ _ _ _ (trace_ok ops) E) as [H _].
+  rewrite !(in_rev p). apply H. rewrite <- in_rev. exact Hin.
+Qed.
+
+(* nothing is enqueued for a client after it has been cancelled *)
+Theorem nothing_after_cancel ops p g q :
+  trace ops = p ++ ECancel g :: q -> ~ In (EEnq g) q.
+Proof.
+  intros E Hin. apply in_split in Hin. destruct Hin as (q1 & q2 & ->).
+  assert (E' : trace ops = (p ++ ECancel g :: q1) ++ EEnq g :: q2) by (rewrite E, <- app_assoc; reflexivity).
+  pose proof (okr_split _ _ _ _ (trace_ok ops) E') as [H _]. apply H.
+  rewrite <- in_rev. apply in_app_iff. right. left. reflexivity.
+Qed.
+
+(* at every moment of every history: at most one installed-and-not-cancelled client per id *)
+Theorem one_live_per_id ops p q id g1 g2 :
+  trace ops = p ++ q -> live_in p id g1 -> live_in p id g2 -> g1 = g2.
+Proof.
+  intros E [I1 C1] [I2 C2].
+  assert (Hp : okr (rev p)) by (apply (okr_prefix p q); rewrite <- E; apply trace_ok).
+  destruct (N.eq_dec g1 g2) as [|Hne]; [assumption|exfalso].
+  apply in_split in I2. destruct I2 as (a & b & Ep). subst p.
+  apply in_app_iff in I1. destruct I1 as [I1|[I1|I1]].
+  - pose proof (okr_split _ _ _ _ Hp eq_refl) as [H _]. specialize (H g1).
+    rewrite <- !in_rev in H. apply H in I1. apply C1. apply in_app_iff. left. apply I1.
+  - inversion I1. congruence.
+  - apply in_split in I1. destruct I1 as (b1 & b2 & ->).
+    assert (E2 : a ++ EInstall id g2 :: b1 ++ EInstall id g1 :: b2 = (a ++ EInstall id g2 :: b1) ++ EInstall id g1 :: b2)
+      by (rewrite <- app_assoc; reflexivity).
+    pose proof (okr_split _ _ _ _ Hp E2) as [H _]. specialize (H g2). rewrite <- !in_rev in H.
+    assert (Hin : In (EInstall id g2) (a ++ EInstall id g2 :: b1)) by (apply in_app_iff; right; left; reflexivity).
+    apply H in Hin. apply C2. rewrite E2. apply in_app_iff. left. apply Hin.
+Qed.
+
+(* ------------------------------------------------------------------ frame *)
+Lemma untouched_clients s o id : untouched o id -> clk id (clients (next s o)) = clk id (clients s).
+Proof.
+  unfold next. destruct o as [r|k| |str]; cbn [untouched step].
+  - intros Hn. destruct (N.eqb (rid r) reserved); [reflexivity|]. rewrite stop_id_eq.
+    destruct (clk (rid r) (clients s)); cbn [fst snd clients]; rewrite clk_ins, ?clk_rm;
+      destruct (N.eqb_spec id (rid r)); congruence.
+  - intros [Hn Hr]. destruct (N.eqb_spec k reserved); [contradiction|]. rewrite stop_id_eq.
+    destruct (clk k (clients s)); cbn [fst snd set_maps clients]; rewrite ?clk_rm;
+      destruct (N.eqb_spec id k); congruence.
+  - intros [].
+  - reflexivity.
+Qed.
+
+(* operations on other rules leave a rule's client alone (same generation: its connection is not
+   restarted) and registered; a broadcast on its stream is offered to it *)
+Theorem others_keep_flowing :
+  (forall ops o id c, untouched o id -> clk id (clients (final ops)) = Some c ->
+     clk id (clients (next (final ops) o)) = Some c /\ In c (members (next (final ops) o))) /\
+  (forall ops id c, clk id (clients (final ops)) = Some c ->
+     In (EEnq (cgen c)) (events (final ops) (Bcast (rstream (crule c)))) /\
+     In (rdest (crule c)) (snd (step (final ops) (Bcast (rstream (crule c)))))).
+Proof.
+  split.
+  - intros ops o id c Hu Hc. assert (H : clk id (clients (next (final ops) o)) = Some c)
+      by (rewrite untouched_clients; assumption).
+    split; [exact H|]. apply (si_mem _ (si_next _ o (si_final ops))). exists id; exact H.
+  - intros ops id c Hc. assert (Hm : In c (members (final ops))) by (apply (si_mem _ (si_final ops)); exists id; exact Hc).
+    assert (Hf : In c (filter (stream_eqb (rstream (crule c))) (members (final ops)))).
+    { apply filter_In. split; [exact Hm|]. unfold stream_eqb. apply N.eqb_refl. }
+    unfold events. cbn [step fst snd]. split.
+    + apply in_map_iff. exists c. split; [reflexivity|exact Hf].
+    + apply in_map_iff. exists c. split; [reflexivity|exact Hf].
+Qed.
+
+(* a broadcast is offered only to live clients of that stream: every destination it reaches is the
+   destination of the latest rule of some id *)
+Theorem bcast_only_live ops str d :
+  In d (snd (step (final ops) (Bcast str))) ->
+  exists id r, latest ops id = Some r /\ rdest r = d /\ rstream r = str.
+Proof.
+  cbn [step snd]. rewrite in_map_iff. intros [c [<- Hc]]. apply filter_In in Hc. destruct Hc as [Hm Hs].
+  apply (si_mem _ (si_final ops)) in Hm. destruct Hm as [id Hid].
+  exists id, (crule c). split; [|split; [reflexivity|apply N.eqb_eq; exact Hs]].
+  rewrite <- live_is_latest, Hid. reflexivity.
+Qed.
